@@ -290,3 +290,123 @@ PROPS["C01"] = {
     "assumptions": ["determinism is compared between processes of the same binary or of two builds of the same sources (plain vs ASan)"],
     "timeout": {"quick": 1500, "thorough": 14400},
 }
+
+# ---- C15 / C16: engines written by a sub-agent (agent_out/http), reviewed and integrated here
+PROPS["C15"] = {
+    "level": "exploration",
+    "claim": {
+        "technique": "runtime monitoring + sanitizers: generated inputs in exactly-sized heap blocks (ASan redzones on both sides), naive reference scan for the request length, constructive grammar oracle for well-formed requests",
+        "text": "sim::parse_request and sim::find_request_len are called on random bytes, grammar-generated well-formed requests, mutations of valid requests (dropped/duplicated CR, LF, colon, space; NULs; truncation at every offset; bit flips; header blocks up to 64 kB) copied into new char[len] blocks without terminator, under ASan+UBSan+libstdc++ assertions. Only the parser's std::runtime_error may escape; find_request_len must equal a naive scan for the first CRLFCRLF; for well-formed requests method/target/headers (lower-cased name, trimmed value, last duplicate wins) and the path are compared with what the generator built. The expected path is the canonical segment list the generator drew BEFORE inserting 'x/../' detours, stripping the leading '/' and appending a query. Holds on the inputs explored, nothing more.",
+        "note": "Trusts the generator in harness/e_httpparse.cpp. Non-termination would show as the driver's watchdog (inconclusive), not as a verdict. NUL bytes inside header values and trim() on strings with NULs are exercised for memory safety only (trim treats NUL as whitespace; well-formed requests have none).",
+        "ref": "DESIGN.md 3/C15",
+    },
+    "rule": "inputs = byte strings handed to parse_request / find_request_len in exactly-sized heap blocks: ~20% random bytes over 5 alphabets (lengths 0-300, some up to 64 kB), "
+            "~40% well-formed requests from a grammar (method incl. CONNECT and look-alikes, target built from a canonical segment list with nested detours / no leading slash / query, "
+            "0-12 header lines with case-varied duplicate names, optional whitespace around values and before the colon, high bytes in values; some with 100-1600 header lines), "
+            "~30% 1-3 stacked mutations of a valid request (plus the prefix up to the first blank line, as the server would pass it), every prefix and many suffixes of short valid requests, "
+            "and direct calls of trim/lower_case/normalize. One case = a batch of 200 inputs; evaluations count inputs. Non-trivial = well-formed, mutated or truncated input (random bytes only when they contain a space); "
+            "distinct = distinct input bytes.",
+    "jobs": [{"engine": "httpparse", "args": {"n": T(4000, 100000), "batch": 200}}],
+    "require": {
+        "quick": {"inputs": 500000, "wellformed_requests": 100000, "paths_verified": 90000, "requests_with_detours": 25000, "requests_without_leading_slash": 20000,
+                  "requests_with_query": 25000, "headers_verified": 500000, "duplicate_headers_resolved": 500000, "inputs_mutated": 80000, "inputs_truncated": 100000,
+                  "inputs_random_bytes": 50000, "inputs_long_header_block": 3000, "parse_threw": 200000, "parse_returned": 150000, "frl_found": 150000, "frl_none": 200000,
+                  "connect_requests": 5000},
+        "thorough": {"inputs": 15000000, "wellformed_requests": 3000000, "inputs_mutated": 2500000},
+    },
+    "assumptions": ["len >= 0 and start points to exactly len readable bytes (the server's only use)",
+                    "well-formed = request line 'token SP target SP version CRLF', header lines 'token [ws] : [ws] value [ws] CRLF' without CR/LF/NUL inside, blank line; no obs-fold, no body",
+                    "the path rule is checked for methods other than the exact string CONNECT; detour segments are non-empty and never '..' themselves; a '..' with nothing before it is not generated in judged inputs",
+                    "C locale (bytes >= 0x80 are not case-mapped)"],
+}
+
+PROPS["C16"] = {
+    "level": "exploration",
+    "claim": {
+        "technique": "runtime monitoring: simulated clients over the simulated TCP, an independent content-length response framer compared with a reference routing model; bounded-exhaustive cut offsets and stop() moments; ASan+UBSan build",
+        "text": "The real sim::http_server (handlers, ranged content, redirect, stalled path; keep-alive on/off; IPv4/IPv6) serves 1-4 successive simulated clients. Each client writes its concatenated requests cut into pieces (spaced 0-50 virtual ms, pipelining depth 1..all, MTU 1-1475 so segment boundaries move) and frames what it receives with its own status-line/header/content-length parser; count, order, status, handler output byte-for-byte, range bodies, Location, the keep-alive/close rule at quiescence, acceptance of the next client after close / malformed input / EOF mid-request, and after stop() a refused connect plus a successful fresh bind are checked. Every single cut offset and every pair of offsets of 8 short scenarios, and stop() at every handler-execution boundary of 6 short scenarios, are enumerated; everything else is sampled.",
+        "note": "Loss-free routes only (loss is C05/C06's subject). Connections that overlap a stop() are judged as 'what was received is a correct prefix'. Job 'abandon' covers clients that disappear without reading a response larger than the initial TCP window: that parks the server for good and is recorded as an open known finding (KNOWN_FINDINGS.txt, DESIGN.md 10.3); the candidate repair in the library's TCP was rejected because it truncated relays in http_proxy.",
+        "ref": "DESIGN.md 3/C16",
+    },
+    "rule": "cases = (keep-alive flag, MTU in {1475,536,100,37,13,5,1}, latency 0-40 ms, bandwidth, IPv4/6, handler/content sizes) x 1-4 successive clients (40% started while the previous connection is still open) "
+            "x per client: 0-8 requests over registered handler / content / range / redirect / unknown / stalled / malformed, with and without Connection: close (case variants), request targets with query / detour / no leading slash, "
+            "headers up to 20 kB; cut set (none, 1-10 random, every byte, request boundaries, around the blank lines) with per-cut delays 0-50 ms; pipelining depth 1, 2, k, all; client policy normal / EOF after a partial request / "
+            "abandon a small response; in 25% stop() at handler execution k or when idle. Job 'cuts' enumerates every one- and two-cut split (x2 delay variants) of 8 scenarios (two/three pipelined requests: handler+404, redirect+range, keep-alive off, "
+            "Connection: close, stalled path, malformed, MTU 7, EOF mid-request), each followed by a second client; job 'stops' calls stop() after handler execution k for every k. "
+            "Non-trivial = every case (each has at least one judged connection); distinct = distinct scenario descriptors.",
+    "jobs": [
+        {"name": "cuts", "engine": "httpserver", "mode": "cuts"},
+        {"name": "stops", "engine": "httpserver", "mode": "stops"},
+        {"name": "random", "engine": "httpserver", "mode": "random", "args": {"n": T(6000, 200000)}},
+        {"name": "abandon", "engine": "httpserver", "mode": "abandon", "args": {"n": T(600, 20000)}},
+    ],
+    "require": {
+        "quick": {"responses_verified": 100000, "responses_verified_handler": 70000, "responses_verified_range": 5000, "responses_verified_redirect": 4000,
+                  "responses_verified_content": 6000, "responses_verified_unknown-path": 5000, "exhaustive_cut_pairs": 35000, "cut_points": 300000,
+                  "connections_kept_open_verified": 30000, "connections_closed_by_server_verified": 20000, "successive_clients_accepted": 30000,
+                  "stalled_requests_unanswered": 5000, "malformed_requests_sent": 4000, "stops_mid_scenario": 800, "connects_refused_after_stop": 2500,
+                  "ports_rebound_after_stop": 2500, "clients_abandoning_without_reading": 200},
+        "thorough": {"responses_verified": 600000, "stops_mid_scenario": 15000, "successive_clients_accepted": 200000},
+    },
+    "assumptions": ["requests carry no body; ranges are 'bytes=a-b' with 0 <= a <= b < size",
+                    "loss-free routes; one client node, one server node; the server handles one connection at a time by design, so a stalled request parks it for good (later clients are then not judged)",
+                    "handlers never throw and always return a consistent content-length"],
+    "timeout": {"quick": 900, "thorough": 7200},
+}
+
+# ---- C18: engine written by a sub-agent (agent_out/proxy), reviewed and integrated here
+PROPS["C18"] = {
+    "level": "exploration",
+    "claim": {
+        "technique": "runtime monitoring: recording origin servers with an independent request parser and scripted position-coded responses, "
+                     "byte-exact comparison at the simulated clients, bounded-exhaustive cuts of the client byte stream + random request sequences "
+                     "(ASan+UBSan build, library asserts on)",
+        "text": "The real sim::http_proxy runs between simulated clients and harness-written origin servers. For every request the origin "
+                "records what arrived (method, origin-form target, header map, Host added when missing, host:port it arrived on) and answers "
+                "with scripted bytes; the client must receive exactly those bytes in order, a 503 when the host cannot be resolved/connected, "
+                "a closed connection after a malformed or non-absolute request, and every following client must be accepted and served until "
+                "stop(). Every single cut and every pair of cuts of 15 short request streams is enumerated, everything else is sampled.",
+        "note": "Port 80 cannot be listened on in the simulator: 'port 80 by default' is observed as 503 + the proxy's own 'async_connect: <addr>:80' "
+                "log line (captured from stdout) + the resolver call log. Byte layout/header order/HTTP version of the forwarded request and the "
+                "value of the inserted Host header are not compared. Trusts the recording origin, its parser and the stdout capture in harness/e_httpproxy.cpp.",
+        "ref": "DESIGN.md 3/C18",
+    },
+    "rule": "cases = (network latency/bandwidth/MTU, resolver latencies, 1-4 successive clients). Each client: target class "
+            "{reachable origin | no listener / no such node | unresolvable (unknown name, resolver error, empty result) | no port given (=80)} x "
+            "host spelling {IPv4 literal, name via the simulated resolver, bracketed IPv6 literal} x 1-6 pipelined absolute-URI requests "
+            "(methods, paths incl. none/'..'/'//'/':'/query, 0-6 headers with mixed case/padding/empty values, with/without Host, up to 40 kB) "
+            "optionally ended by a malformed request (no spaces, no version, header without colon, port > 65535) or a non-absolute one "
+            "(origin-form, '*', authority-form, relative) x cut set of the byte stream (none, 1-2, 3-10, every byte, around the CRLFCRLF boundaries) "
+            "with pauses 0-120 ms x origin script (response 0-140 kB, one write / small chunks / MSS-sized chunks, pauses, think time, closing "
+            "before/inside/after a response) x client end (closes when complete / stays until quiescence) x start of the next client "
+            "(immediately, +1 us .. +60 ms, at quiescence); stop() after the last client in 1/3 of the cases followed by a connect that must be refused. "
+            "Job 'cuts' enumerates no cut, every single cut and every pair of cuts of 15 fixed short streams (single, pipelined x2/x3, named, IPv6, "
+            "port 65535, default port v4/v6, refused x2, unresolvable x2, valid+malformed, valid+origin-form, port out of range), each followed by a "
+            "second client. Non-trivial = every case (each runs at least one full client/proxy/origin exchange); distinct = distinct "
+            "(descriptor, bytes received per client, who ended each connection).",
+    "jobs": [
+        {"name": "cuts", "engine": "httpproxy", "mode": "cuts", "args": {"pairs": 1}},
+        {"name": "random", "engine": "httpproxy", "mode": "random", "args": {"n": T(6000, 250000)}},
+    ],
+    "require": {
+        "quick": {"cut_pairs_enumerated": 23000, "single_cuts_enumerated": 800,
+                  "requests_verified_at_origin": 40000, "pipelined_requests_verified_at_origin": 12000,
+                  "host_header_insertions_verified": 25000, "named_host_requests_verified": 20000, "ipv6_literal_requests_verified": 2000,
+                  "clients_relay_verified": 25000, "response_bytes_verified": 150000000, "origin_early_close_relays_verified": 500,
+                  "clients_503_verified": 7000, "default_port_80_seen_in_proxy_log": 2000,
+                  "clients_closed_on_malformed": 2500, "clients_closed_on_nonabsolute": 2000,
+                  "next_clients_served_after_error_or_close": 9000, "connects_refused_after_stop": 2500,
+                  "client_stream_cuts_applied": 80000},
+        "thorough": {"cut_pairs_enumerated": 23000, "requests_verified_at_origin": 500000, "pipelined_requests_verified_at_origin": 300000,
+                     "response_bytes_verified": 5000000000, "clients_503_verified": 100000, "default_port_80_seen_in_proxy_log": 40000,
+                     "clients_closed_on_malformed": 50000, "clients_closed_on_nonabsolute": 40000,
+                     "next_clients_served_after_error_or_close": 150000, "origin_early_close_relays_verified": 20000},
+    },
+    "assumptions": ["clients are successive: each connects after the previous one saw its connection end (the proxy serves one connection at a time by design)",
+                    "all requests of one client connection name the same origin (the statement says 'pipelined requests to the same origin')",
+                    "requests have no body, header names are unique per request, a client's request bytes total < 41 kB (proxy buffers are 64 kB)",
+                    "loss-free paths (finite bandwidth and latency, unlimited queues): TCP loss recovery is C05/C06's subject",
+                    "no origin can listen on port 80 (ports 1-1023 cannot be bound in the simulator): the default port is observed through 503 + the proxy's log line",
+                    "stop() is called between connections; 'connect refused after stop()' relies on acceptor::close() really closing (repo commit bb2d71b)"],
+    "timeout": {"quick": 900, "thorough": 7200},
+}
